@@ -11,8 +11,11 @@ namespace BitSerializer::Detail
 	class CBinaryStreamReader
 	{
 	public:
+#ifdef BITSERIALIZER_VERIF_CHUNK_SIZE
+		static constexpr size_t chunk_size = BITSERIALIZER_VERIF_CHUNK_SIZE;	// verification hook: small chunk so that every buffer alignment is reachable with short streams
+#else
 		static constexpr size_t chunk_size = 256;
-
+#endif
 		explicit CBinaryStreamReader(std::istream& inputStream);
 		CBinaryStreamReader(const CBinaryStreamReader&) = delete;
 		CBinaryStreamReader(CBinaryStreamReader&&) = delete;
